@@ -463,8 +463,11 @@ func (p *Path) callSSA(caller *frame, pos token.Pos, fn *ssa.Function, args []va
 			return zeroResults(fn.Signature)
 		}
 	}
-	if fn.Blocks == nil && fn.Pkg != nil {
-		fn.Pkg.Build() // lazily build dependency packages (idempotent, thread-safe)
+	if fn.Pkg != nil {
+		// lazily build dependency packages; called unconditionally so that a worker
+		// never reads the blocks of a function another worker is still building
+		// (Build is a sync.Once after the first call)
+		fn.Pkg.Build()
 	}
 	if fn.Blocks == nil {
 		panic(unsupported{"no SSA body for " + fn.String()})
